@@ -207,13 +207,19 @@ def run_shape(job, acc):
                     desc = make_desc(n, edges, kinds, set(outs))
                     for flag in ((False,) if job["bb"] else (False, True)):
                         # nodes inserted fan-in first, and loads first (a circuit built from its outputs backwards)
-                        for order in (None, "rev"):
+                        # "alias": the first plain node carries the blackbox INSTANCE's name (u) - the registry
+                        # and the graph are separate name spaces
+                        alias = job["bb"] and kinds[0] not in ("bbin", "bbout") and any(k in ("bbin", "bbout") for k in kinds)
+                        for order in (None, "rev") + (("alias",) if alias else ()):
+                            ren = {"n0": "u"} if order == "alias" else {}
                             if order not in base:
-                                base[order] = space.build(make_desc(n, edges, kinds, set()), order=order)
+                                base[order] = space.build(space.rename(make_desc(n, edges, kinds, set()), ren),
+                                                          order=order if order == "rev" else None)
                             c = snapshot.clone(base[order])
                             for i in outs:
-                                c.graph.nodes[f"n{i}"]["output"] = True
-                            case = {"kind": "shape", "desc": desc, "inputs": flag, "order": order}
+                                c.graph.nodes[ren.get(f"n{i}", f"n{i}")]["output"] = True
+                            case = {"kind": "shape", "desc": space.rename(desc, ren) if ren else desc, "inputs": flag,
+                                    "order": order if order == "rev" else None}
                             acc.states += 1
                             nt = check_call(acc, c, flag, "shape", case)
                             if nt:
